@@ -71,7 +71,7 @@ func interestingCuts(src []byte) []int {
 func (c07) Gen(seed uint64, idx int, tier string) *Scenario {
 	r := prng.New(seed, "C07", idx)
 	sc := &Scenario{Prop: "C07", Seed: seed, Idx: idx, API: "ParseFile"}
-	class := prng.Pick(r, []string{"valid", "valid", "valid", "valid", "syntax-early", "syntax-late", "lex-early", "lex-late", "many-errors", "soup", "raw", "valid-big", "valid-exotic"})
+	class := prng.Pick(r, []string{"valid", "valid", "valid", "valid", "syntax-early", "syntax-late", "lex-early", "lex-late", "many-errors", "soup", "raw", "valid-big", "valid-exotic", "prefixed"})
 	sc.Class = class
 	var src []byte
 	var p *gen.Prog
